@@ -25,7 +25,7 @@ theorem membershipField_eq (ev : Event) :
       | none => none
       | some JVal.null => some []
       | some (JVal.obj kvs) =>
-        if (decString (lookupField kvs b!"membership")).err = true then none else some (decString (lookupField kvs b!"membership")).val
+        if (decString (lookupExact kvs b!"membership")).err = true then none else some (decString (lookupExact kvs b!"membership")).val
       | some _ => none) = membershipField ev := by
   unfold membershipField
   cases ev.content with
@@ -38,8 +38,8 @@ theorem restricted_tail (ev : Event) (L inv : Int) :
       | none => none
       | some JVal.null => some []
       | some (JVal.obj kvs) =>
-        if (decString (lookupField kvs b!"membership")).err = true then none
-        else some (decString (lookupField kvs b!"membership")).val
+        if (decString (lookupExact kvs b!"membership")).err = true then none
+        else some (decString (lookupExact kvs b!"membership")).val
       | some _ => none : Option Bytes) with
     | none => (notAllowed : R Bytes)
     | some mem =>
@@ -54,10 +54,10 @@ theorem restricted_tail (ev : Event) (L inv : Int) :
     | null => simp
     | obj kvs =>
       simp only
-      by_cases herr : (decString (lookupField kvs b!"membership")).err = true
+      by_cases herr : (decString (lookupExact kvs b!"membership")).err = true
       · simp [herr]
       · simp only [herr, if_false]
-        by_cases hj : (decString (lookupField kvs b!"membership")).val = b!"join"
+        by_cases hj : (decString (lookupExact kvs b!"membership")).val = b!"join"
         · by_cases hl : L < inv
           · have : ¬ (L ≥ inv) := by omega
             simp [hj, hl, this]
